@@ -122,6 +122,11 @@ func (s *Service) Subscribe(ctx context.Context, ns libshare.Namespace) (<-chan 
 	go func() {
 		defer close(blobCh)
 
+		// retrievals must end together with the service, not only with the subscriber
+		ctx, cancel := context.WithCancel(ctx)
+		defer cancel()
+		defer context.AfterFunc(s.ctx, cancel)()
+
 		for {
 			select {
 			case header, ok := <-headerCh:
